@@ -828,6 +828,10 @@ def c11(tier):
         sched_spec('two-senders-compressed', tags, [['send_text'], ['send_binary']], 1,
                    W + '; with permessage-deflate and context takeover the reference peer must inflate in wire order',
                    compress=dict(client_no_takeover=False)),
+        sched_spec('compressed-vs-uncompressed-sender', tags, [['send_text'], ['send_binary_raw']], 2,
+                   W + '; permessage-deflate negotiated, thread 1 sends compressed, thread 2 sends with compress=False; preemption also on return '
+                       'from zlib\'s compress(), before flush() is called: the reference peer must restore exactly what each thread sent',
+                   compress=dict(client_no_takeover=False)),
         sched_spec('two-senders-compressed-no-takeover', tags, [['send_text'], ['send_binary']], 1,
                    W + '; permessage-deflate with client_no_context_takeover: the peer resets its inflater after every message, so every message on the wire '
                        'must have been deflated from a fresh context', compress=dict(client_no_takeover=True)),
